@@ -172,7 +172,7 @@ def coq_check(prop):
     sd = scratch_dir('lcdbcoq.')
     r = subprocess.run(['timeout', '900', 'coqc', '-Q', 'theories', 'LCDB',
                         '-w', '-notation-overridden,-deprecated-hint-without-locality,-deprecated-instance-without-locality',
-                        '-o', os.path.join(sd, 'P.vo'), pf], cwd=COQ, capture_output=True, text=True)
+                        '-o', os.path.join(sd, 'Properties_%s.vo' % prop), pf], cwd=COQ, capture_output=True, text=True)
     out = r.stdout
     res['log'] = (log if not ok else '') + r.stderr[-2000:]
     # Parse Print Assumptions blocks: either "Closed under the global context" or "Axioms:\n name : type ..."
